@@ -215,7 +215,7 @@ def e2e(ck, n_cases):
     import time_e2e
     ds = time_e2e.run_e2e(tc.DriverProxy(ck), ck.rng, n_cases, years=tc.BOUNDARY_YEARS, ops=['format_roundtrip'])
     for d in ds:
-        if d['predicate'] == 'raw-error' and d['got'] and d['got'][0] == 'Timeout': continue
+        if d['predicate'] == 'raw-error' and d['got'] and (d['got'][0] == 'Timeout' or 'wall-clock guard' in str(d['got'])): continue
         fmt = d['params'].get('fmt')
         if d['predicate'] == 'raw-error' and fmt == 'sdmx_gregorian' and d['ind'] in 'SQW' and d.get('model_predicts') and '2-1-19-21' in str(d['got']):
             key = K_GREG
